@@ -36,12 +36,12 @@ CNT = A + "evaluation_counter.EvaluationCounter"
 def termination_classes():
     """Qualified names of TerminationCriterion and of every class of stop_criteria.py deriving from it (real source)."""
     mi = S.load_module(A + "stop_criteria")
-    out = [q for q in (f"{mi.name}.{n}" for n in mi.classes) if S.is_subclass(q, TC)]
-    assert TC in out and len(out) >= 8, out
-    return out
+    return [q for q in (f"{mi.name}.{n}" for n in mi.classes) if S.is_subclass(q, TC)]
 
 
 TERMINATION_CLASSES = termination_classes()
+# the stop criteria the property names: budget / tolerances / time limit / NaN
+NAMED_CRITERIA = ("MaxIterReachedException", "XtolReached", "FtolReached", "KKTReached", "MaxTimeReached", "FunctionIsNan", "DesvarIsNan")
 
 # ---------------------------------------------------------------------------- schemas (fields the code under contract touches)
 schema(DS + "#c03", {"dimension": TInt})
@@ -88,6 +88,12 @@ def same_list(L0, L1):
     return z3.And(L0.n == L1.n, L0.elems == L1.elems)
 
 
+def _members_plus(L0, L1, x):
+    """The elements of L1 are those of L0 and x."""
+    g = z3.Const("g!mp", ValS)
+    return z3.ForAll([g], lin(L1, g) == z3.Or(lin(L0, g), g == x), patterns=[lin(L1, g)])
+
+
 def same_members(L0, L1):
     f = z3.Const("f!sm", ValS)
     return z3.ForAll([f], lin(L1, f) == lin(L0, f), patterns=[lin(L1, f)])
@@ -113,6 +119,7 @@ class AddListener(Contract):
                 ("size", L1.n == z3.If(lin(L0, f), L0.n, L0.n + 1)),
                 ("prefix-kept", z3.ForAll([i], z3.Implies(z3.And(0 <= i, i < L0.n), L1.elems[i] == L0.elems[i]))),
                 ("appended-last", z3.Implies(z3.Not(lin(L0, f)), L1.elems[L0.n] == f)),
+                ("members", _members_plus(L0, L1, f)),
                 ("duplicate-free-preserved", z3.Implies(dupfree(L0), dupfree(L1)))]
 
 
@@ -134,6 +141,7 @@ class _AddWrapper(Contract):
                 ("size", L1.n == z3.If(lin(L0, f), L0.n, L0.n + 1)),
                 ("prefix-kept", z3.ForAll([i], z3.Implies(z3.And(0 <= i, i < L0.n), L1.elems[i] == L0.elems[i]))),
                 ("appended-last", z3.Implies(z3.Not(lin(L0, f)), L1.elems[L0.n] == f)),
+                ("members", _members_plus(L0, L1, f)),
                 ("duplicate-free-preserved", z3.Implies(dupfree(L0), dupfree(L1))),
                 ("other-listeners-kept", z3.And(O1.n == O0.n, O1.elems == O0.elems)),
                 ("data-kept", z3.And(c.new.self._Database__data.n == c.old.self._Database__data.n,
@@ -291,17 +299,15 @@ class DriverClearListeners(Contract):
     params = {"problem": PROBLEM}
     modifies = ("self", "problem.database")
 
+    raises = {}  # (Database.clear_listeners raises ValueError for a listener that is not registered: excluded by the second precondition)
+
     def requires(self, c):
-        return [("new-iter-listeners-duplicate-free", dupfree(c.old.problem.database._Database__new_iter_listeners))]
-
-    @property
-    def raises(self):
-        def cond(c):
-            S0 = own_listeners(c.old.self)
-            f = z3.Const("f!dc", ValS)
-            return z3.Exists([f], z3.And(S0.member[f], z3.Not(lin(c.old.problem.database._Database__new_iter_listeners, f))))
-
-        return {"ValueError": cond}
+        NL = c.old.problem.database._Database__new_iter_listeners
+        S0 = own_listeners(c.old.self)
+        f = z3.Const("f!dc", ValS)
+        return [("new-iter-listeners-duplicate-free", dupfree(NL)),
+                # the driver only ever puts into its own set what it has just registered (proved at the call site in execute)
+                ("own-listeners-are-registered", z3.ForAll([f], z3.Implies(S0.member[f], lin(NL, f)), patterns=[S0.member[f]]))]
 
     def ensures(self, c):
         d0, d1 = c.old.problem.database, c.new.problem.database
@@ -402,7 +408,9 @@ class GetResult(Contract):
         return {"no-feasible-point-has-an-objective-value": feasible_points_lack_objective(data_term(db_of(c.old.problem)))}
 
     def ensures(self, c):
-        return [("is-a-result", z3.BoolVal(c.result_value is not None))] + result_built_from(c, c.old.problem, c.old.message, c.old.status, c.old.self._algo_name)
+        if c.result_value is None:
+            return [("is-a-result", z3.BoolVal(False))]
+        return [("is-a-result", z3.BoolVal(True))] + result_built_from(c, c.old.problem, c.old.message, c.old.status, c.old.self._algo_name)
 
 
 EXPECTED_MESSAGE = {
@@ -432,6 +440,8 @@ class _EarlyStop(Contract):
 
     def ensures(self, c):
         rv = c.result_value
+        if rv is None:
+            return [("is-a-result", z3.BoolVal(False))]
         short = self._cls(c)
         msg = RESULT.accessor("message")(rv.term)
         out = [("is-a-result", z3.BoolVal(rv is not None)),
@@ -577,18 +587,20 @@ class _RunPhase(Contract):
 @register
 class PreRun(_RunPhase):
     targets = (ALG + "._pre_run",)
-    raises = {TC: None, SC + "MaxIterReachedException": None, SC + "FunctionIsNan": None, "ValueError": None}
-    description = ("assumed summary of every _pre_run override (see _RunPhase); raises: ValueError (validation), or a TerminationCriterion - represented by "
-                   "MaxIterReachedException / FunctionIsNan (first evaluation at x0) and the base class (= any other subclass)")
+    raises = {TC: None, "ValueError": None}
+    description = ("assumed summary of every _pre_run override (see _RunPhase); raises ValueError (validation) or a TerminationCriterion - represented by the "
+                   "base class, i.e. an instance that is an instance of NO named subclass; that every named subclass is caught by the same handler is the "
+                   "lemma contract TerminationHandlerCoversEveryCriterion")
 
 
 @register
 class Run(_RunPhase):
     targets = (DRV + "._run",)
-    raises = {q: None for q in TERMINATION_CLASSES}
+    raises = {TC: None, SC + "MaxIterReachedException": None}
     c03_returns_optional_pair = True
-    description = ("assumed summary of the abstract _run (see _RunPhase); returns None or a (message, status) pair, or raises ANY TerminationCriterion subclass "
-                   "(all classes of stop_criteria.py, the base class standing for any other subclass)")
+    description = ("assumed summary of the abstract _run (see _RunPhase); returns None or a (message, status) pair, or raises a TerminationCriterion - "
+                   "represented by MaxIterReachedException and by the base class (= a subclass unknown to the code); every named class of stop_criteria.py is "
+                   "covered by TerminationHandlerCoversEveryCriterion (handler) and by the per-class variants of _get_early_stopping_result (message)")
 
 
 @register
@@ -599,6 +611,47 @@ class PostRun(_Assumed):
     modifies = ("problem.design_space",)
     description = ("assumed: stores the result as problem.solution, sets the design space to the optimum, logs; touches neither the database, the counter, the "
                    "listeners nor the driver (the result object only receives its objective_name / design_space fields)")
+
+
+@register
+class TerminationHandlerCoversEveryCriterion(Contract):
+    """Read on the REAL source of execute: `_pre_run` and `_run` are called inside one `try` whose handler catches every class of stop_criteria.py
+    deriving from TerminationCriterion (class hierarchy resolved from the source), and that handler builds the result with _get_early_stopping_result."""
+
+    targets = ()
+    prop = ("C03",)
+    lemma = True
+
+    def lemmas(self):
+        import ast
+
+        from pyvc.engine import exc_is_subclass
+
+        fi = S.load_function(DRV + ".execute")
+        calls = lambda node, name: any(isinstance(x, ast.Call) and isinstance(x.func, ast.Attribute) and x.func.attr == name for b in node for x in ast.walk(b))  # noqa: E731
+        tries = [t for t in ast.walk(fi.node) if isinstance(t, ast.Try) and calls(t.body, "_run")]
+        out = [("run-is-guarded-by-one-try", z3.BoolVal(len(tries) == 1))]
+        if len(tries) != 1:
+            return out
+        t = tries[0]
+        out.append(("pre-run-is-guarded-by-the-same-try", z3.BoolVal(calls(t.body, "_pre_run"))))
+        mi = fi.module
+
+        def handler_names(h):
+            ts = h.type.elts if isinstance(h.type, ast.Tuple) else [h.type]
+            return [S.resolve_name_in_module(mi, x.id) if isinstance(x, ast.Name) else ast.unparse(x) for x in ts] if h.type is not None else ["BaseException"]
+
+        for short in NAMED_CRITERIA:
+            out.append((f"{short}-is-a-termination-criterion", z3.BoolVal(SC + short in TERMINATION_CLASSES)))
+        for q, crit in CRITERION_OF.items():
+            out.append((f"{q.rsplit('.', 1)[-1]}-raises-{crit.rsplit('.', 1)[-1]}", z3.BoolVal(_criterion_default(q) == crit)))
+        for q in sorted(set(TERMINATION_CLASSES) | {SC + n for n in NAMED_CRITERIA}):
+            catching = [h for h in t.handlers if any(exc_is_subclass(q, n) for n in handler_names(h))]
+            short = q.rsplit(".", 1)[-1]
+            out.append((f"{short}-is-caught", z3.BoolVal(bool(catching))))
+            if catching:
+                out.append((f"{short}-handler-builds-the-early-stopping-result", z3.BoolVal(calls(catching[0].body, "_get_early_stopping_result"))))
+        return out
 
 
 class _Execute(Contract):
@@ -654,3 +707,298 @@ class ExecuteEvaluationProblem(_Execute):
     params = {"problem": PROBLEM, "eval_obs_jac": TBool, "skip_int_check": TBool, "max_design_space_dimension_to_log": TInt}
     is_opt = False
     modifies = tuple(m for m in _Execute.modifies if "tolerances" not in m)
+
+
+# ---------------------------------------------------------------------------- sequential DOE loop
+from pyvc.values import TTuple, declare_ghost  # noqa: E402
+
+DOE = A + "doe.base_doe_library.BaseDOELibrary"
+EVLOG = z3.ArraySort(z3.IntSort(), ValS)
+declare_ghost("evallog", EVLOG)  # the design vectors handed to EvaluationProblem.evaluate_functions, in call order
+declare_ghost("evallog_n", z3.IntSort())
+DOE3 = DOE + "#c03"
+schema(DOE3, {"samples": TList(TNd), "_BaseDOELibrary__compute_jacobians": TBool, "_BaseDOELibrary__output_functions": TVal,
+              "_BaseDOELibrary__jacobian_functions": TVal}, bases=[DRV3])
+EVAL = TTuple(TVal, TVal)
+_RUN_MODIFIES = ("self._problem.database", "self._problem.database._Database__hdf_database", "self._problem.evaluation_counter", "self._problem.design_space",
+                 "self._BaseDriverLibrary__progress_bar", "ghost:calllog", "ghost:calllog_n", "ghost:evallog", "ghost:evallog_n")
+
+
+def evals_appended(c, n_expected, value_at):
+    """The ghost log of evaluated design vectors grew by exactly n_expected entries value_at(j), earlier entries kept."""
+    l0, l1 = c.old_ghost("evallog", EVLOG), c.new_ghost("evallog", EVLOG)
+    n0, n1 = c.old_ghost("evallog_n", z3.IntSort()), c.new_ghost("evallog_n", z3.IntSort())
+    j = z3.Int("j!ev")
+    return [("evaluations-count", n1 == n0 + n_expected),
+            ("earlier-evaluations-kept", z3.ForAll([j], z3.Implies(j < n0, l1[j] == l0[j]), patterns=[l1[j]])),
+            ("evaluated-points-in-order", z3.ForAll([j], z3.Implies(z3.And(n0 <= j, j < n0 + n_expected), l1[j] == value_at(j - n0)), patterns=[l1[j]]))]
+
+
+class _EvaluateAt(Contract):
+    """One evaluation of the problem's functions at the given point (logged), through the ProblemFunctions: it may raise any termination
+    criterion (budget, NaN, time, tolerances - from the functions or from the listeners) or ValueError (failed sample)."""
+
+    prop = ("C03",)
+    returns = EVAL
+    raises_exact = False
+    point = ""
+
+    @property
+    def raises(self):
+        return {**{q: None for q in TERMINATION_CLASSES}, "ValueError": None}
+
+    def ensures(self, c):
+        return evals_appended(c, 1, lambda j: getattr(c.old, self.point))
+
+    def raise_ensures(self, c, exc):
+        return evals_appended(c, 1, lambda j: getattr(c.old, self.point))
+
+
+@register
+class EvaluateFunctions(_EvaluateAt):
+    targets = (EP + ".evaluate_functions",)
+    params = {"design_vector": TNd, "design_vector_is_normalized": TBool, "preprocess_design_vector": TBool, "output_functions": TVal, "jacobian_functions": TVal}
+    modifies = tuple(m.replace("self._problem.", "self.").replace("self._BaseDriverLibrary__progress_bar", "ghost:evallog") for m in _RUN_MODIFIES)
+    point = "design_vector"
+    trusted = True
+    description = ("assumed: evaluates the given (preprocessed) functions at the design vector, i.e. calls ProblemFunctions (verified: budget, database protocol); "
+                   "ghost: appends the design vector to `evallog`; may raise a TerminationCriterion or ValueError; returns (outputs, jacobians)")
+
+
+@register
+class GetFunctions(_Assumed):
+    targets = (EP + ".get_functions",)
+    params = {"no_db_no_norm": TBool, "observable_names": TVal, "jacobian_names": TVal}
+    returns = EVAL
+    description = "assumed: selects the functions to evaluate (two lists, opaque here); reads the problem only"
+
+
+@register
+class DoeEvaluateFunctions(_EvaluateAt):
+    """_evaluate_functions(x) evaluates the problem exactly once, at x itself (no preprocessing, not normalized)."""
+
+    targets = (DOE + "._evaluate_functions",)
+    c03 = True
+    self_schema = DOE3
+    params = {"input_value": TNd}
+    modifies = _RUN_MODIFIES
+    point = "input_value"
+
+
+def _doe_inv(c, k):
+    S_ = c.old.self.samples
+    return evals_appended(c, k, lambda j: S_.elems[j]) + [("samples-kept", same_list(S_, c.new.self.samples))]
+
+
+@register
+class DoeRunSequential(Contract):
+    """Sequential DOE: every generated sample is handed to the problem exactly once, in generation order (loop invariant: samples 0..k-1 have been
+    evaluated, in order); a failed sample (ValueError) is skipped; a termination criterion propagates to execute; nothing else is raised."""
+
+    targets = (DOE + "._run",)
+    variant = "sequential"
+    prop = ("C03",)
+    c03 = True
+    self_schema = DOE3
+    params = {"problem": PROBLEM, "eval_jac": TBool, "n_processes": TInt, "wait_time_between_samples": TReal, "use_database": TBool}
+    modifies = ("self",) + _RUN_MODIFIES
+    raises = {q: None for q in TERMINATION_CLASSES}
+    raises_exact = False
+    loops = {1: LoopSpec(anchor="enumerate(self.samples)", inv=_doe_inv, modifies=_RUN_MODIFIES, local_types={"output_value": TVal, "jacobian_value": TVal, "index": TInt, "input_value": TNd})}
+
+    def requires(self, c):
+        return [("sequential", c.old.n_processes <= 1)]
+
+    def ensures(self, c):
+        S_ = c.old.self.samples
+        return evals_appended(c, S_.n, lambda j: S_.elems[j]) + [("samples-kept", same_list(S_, c.new.self.samples))]
+
+
+@register
+class DoeOrderLemmas(Contract):
+    """Generation order in the database, as an induction over the storing steps of a run (no deletion happens in the sequential branch).
+    Step m stores the key x(m) with Database.store's verified postconditions (order-kept, appended-last, size, keys) or leaves the database as it is;
+    created(m) = the key was new.  Claim P(m): the keys created by the steps before m are members, and pos(x(i)) < pos(x(j)) for created steps i < j < m."""
+
+    targets = ()
+    prop = ("C03",)
+    lemma = True
+
+    def lemmas(self):
+        K = HNd.sort()
+        x = z3.Function("doe_x", z3.IntSort(), K)
+        created = z3.Function("doe_created", z3.IntSort(), z3.BoolSort())
+        mem = z3.Function("doe_mem", z3.IntSort(), K, z3.BoolSort())
+        pos = z3.Function("doe_pos", z3.IntSort(), K, z3.IntSort())
+        n = z3.Function("doe_n", z3.IntSort(), z3.IntSort())
+        m, i, j = z3.Ints("m i j")
+        p = z3.Const("p", K)
+        step = z3.And(
+            z3.ForAll([p], z3.Implies(mem(m, p), z3.And(mem(m + 1, p), pos(m + 1, p) == pos(m, p), 0 <= pos(m, p), pos(m, p) < n(m))), patterns=[mem(m, p)]),  # order-kept, wf
+            z3.Implies(created(m), z3.And(z3.Not(mem(m, x(m))), mem(m + 1, x(m)), pos(m + 1, x(m)) == n(m))),  # appended-last
+            z3.ForAll([p], z3.Implies(mem(m + 1, p), z3.Or(mem(m, p), z3.And(created(m), p == x(m)))), patterns=[mem(m + 1, p)]))  # keys
+        P = lambda t: z3.And(  # noqa: E731
+            z3.ForAll([i], z3.Implies(z3.And(0 <= i, i < t, created(i)), mem(t, x(i))), patterns=[created(i)]),
+            z3.ForAll([i, j], z3.Implies(z3.And(0 <= i, i < j, j < t, created(i), created(j)), pos(t, x(i)) < pos(t, x(j))), patterns=[z3.MultiPattern(created(i), created(j))]))
+        return [("generation-order:base", P(z3.IntVal(0))),
+                ("generation-order:step", z3.Implies(z3.And(m >= 0, step, P(m)), P(m + 1)))]
+
+
+# ---------------------------------------------------------------------------- tolerance criteria (stop_criteria.py) and the optimizers' callback
+from pyvc.values import ClassV  # noqa: E402
+
+BTT = SC + "BaseToleranceTester"
+OTT, DTT = SC + "ObjectiveToleranceTester", SC + "DesignToleranceTester"
+OPTLIB = A + "opt.base_optimization_library.BaseOptimizationLibrary"
+TESTER_FIELDS = {"absolute": TReal, "relative": TReal, "n_last_iterations": TInt}
+for _q in (BTT, OTT, DTT):
+    schema(_q, TESTER_FIELDS)
+CRITERION_OF = {OTT: SC + "FtolReached", DTT: SC + "XtolReached"}
+for _q, _crit in CRITERION_OF.items():
+    # the dataclass field `termination_criterion = field(default=<class>, init=False)`: checked against the real class body below
+    G.CLASS_CONSTANTS[(_q, "termination_criterion")] = (lambda crit: (lambda ex: ClassV(crit)))(_crit)
+
+
+def _criterion_default(q):
+    """The class named by `termination_criterion = field(default=<class>, init=False)` in the real class body (None if it has another shape)."""
+    import ast
+
+    ci = S.load_class(q)
+    expr = ci.class_attrs.get("termination_criterion") if ci is not None else None
+    kw = {k.arg: k.value for k in expr.keywords} if isinstance(expr, ast.Call) else {}
+    return S.resolve_name_in_module(ci.module, kw["default"].id) if isinstance(kw.get("default"), ast.Name) else None
+
+
+# whether the last n points of the history are within the tolerances (numpy average / allclose over the database: not interpreted)
+tolerance_reached = z3.Function("c03_tolerance_reached", TStr.sort(), z3.RealSort(), z3.RealSort(), z3.IntSort(), DATA.sort(), z3.BoolSort())
+
+
+def reached(c, tester_view, problem_view, heap_cls):
+    kind = str_lit(heap_cls.rsplit(".", 1)[-1])
+    return tolerance_reached(kind, tester_view.absolute, tester_view.relative, tester_view.n_last_iterations, data_term(db_of(problem_view)))
+
+
+def _tester_cls(c):
+    return c._old_heap[c.arg("self").id].cls
+
+
+class _InnerCheck(_Assumed):
+    params = {"problem": PROBLEM}
+    returns = TBool
+    description = ("assumed: the numerical test on the last n recorded points (numpy average / allclose, feasibility of one of them) is a deterministic function "
+                   "c03_tolerance_reached(kind, absolute, relative, n, database content); reads only")
+
+    def ensures(self, c):
+        return [("value", c.result == reached(c, c.old.self, c.old.problem, _tester_cls(c)))]
+
+
+@register
+class ObjectiveInnerCheck(_InnerCheck):
+    targets = (OTT + "._check",)
+
+
+@register
+class DesignInnerCheck(_InnerCheck):
+    targets = (DTT + "._check",)
+
+
+class _TesterCheck(Contract):
+    """check(problem, raise_exception): returns whether the criterion is met; raises the tester's criterion exactly when it is met and
+    raise_exception is set; changes nothing."""
+
+    prop = ("C03",)
+    c03 = True
+    params = {"problem": PROBLEM, "raise_exception": TBool}
+    returns = TBool
+
+    @property
+    def raises(self):
+        def cond(q):
+            return lambda c: z3.And(z3.BoolVal(CRITERION_OF.get(_tester_cls(c)) == q), c.old.raise_exception, reached(c, c.old.self, c.old.problem, _tester_cls(c)))
+
+        return {q: cond(q) for q in CRITERION_OF.values()}
+
+    def ensures(self, c):
+        return [("value", c.result == reached(c, c.old.self, c.old.problem, _tester_cls(c)))]
+
+
+@register
+class ObjectiveTesterCheck(_TesterCheck):
+    targets = (BTT + ".check",)
+    self_class = OTT
+
+
+@register
+class DesignTesterCheck(_TesterCheck):
+    targets = (BTT + ".check",)
+    variant = "design"
+    self_class = DTT
+
+
+class _IsTolReached(Contract):
+    prop = ("C03",)
+    c03 = True
+    returns = TBool
+    tester = ""
+    names = ()
+
+    def ensures(self, c):
+        rel, ab, n = (getattr(c.old, a) for a in self.names)
+        kind = str_lit(self.tester.rsplit(".", 1)[-1])
+        return [("value", c.result == tolerance_reached(kind, ab, rel, n, data_term(db_of(c.old.opt_problem))))]
+
+
+@register
+class IsXTolReached(_IsTolReached):
+    """is_x_tol_reached never raises and answers the design-tolerance test with the given tolerances (relative / absolute not swapped)."""
+
+    targets = (SC + "is_x_tol_reached",)
+    params = {"opt_problem": PROBLEM, "x_tol_rel": TReal, "x_tol_abs": TReal, "n_x": TInt}
+    tester = DTT
+    names = ("x_tol_rel", "x_tol_abs", "n_x")
+
+
+@register
+class IsFTolReached(_IsTolReached):
+    targets = (SC + "is_f_tol_reached",)
+    params = {"opt_problem": PROBLEM, "f_tol_rel": TReal, "f_tol_abs": TReal, "n_x": TInt}
+    tester = OTT
+    names = ("f_tol_rel", "f_tol_abs", "n_x")
+
+
+OPT3 = OPTLIB + "#c03"
+schema(OPT3, {"_f_tol_tester": TObj(OTT), "_x_tol_tester": TObj(DTT)}, bases=[DRV3])
+
+
+@register
+class OptimizerNewIterationCallback(Contract):
+    """The optimizers' listener: counts exactly one evaluation per notification - also when it stops the run - and stops it with MaxTimeReached,
+    FtolReached when the objective criterion is met, else XtolReached when the design criterion is met; nothing else is touched."""
+
+    targets = (OPTLIB + "._new_iteration_callback",)
+    prop = ("C03",)
+    c03 = True
+    self_schema = OPT3
+    params = {"x_vect": TNd}
+    modifies = ("self._problem.evaluation_counter", "self._BaseDriverLibrary__progress_bar")
+    raises_exact = False  # MaxTimeReached depends on the wall clock
+
+    @property
+    def raises(self):
+        f_met = lambda c: reached(c, c.old.self._f_tol_tester, c.old.self._problem, OTT)  # noqa: E731
+        x_met = lambda c: reached(c, c.old.self._x_tol_tester, c.old.self._problem, DTT)  # noqa: E731
+        return {SC + "MaxTimeReached": lambda c: c.old.self._BaseDriverLibrary__max_time > 0,
+                SC + "FtolReached": f_met,
+                SC + "XtolReached": lambda c: z3.And(z3.Not(f_met(c)), x_met(c))}
+
+    def _count(self, c):
+        k0, k1 = c.old.self._problem.evaluation_counter, c.new.self._problem.evaluation_counter
+        return [("counted-once", k1.current == k0.current + 1), ("maximum-kept", k1.maximum == k0.maximum)]
+
+    def ensures(self, c):
+        f_met = reached(c, c.old.self._f_tol_tester, c.old.self._problem, OTT)
+        x_met = reached(c, c.old.self._x_tol_tester, c.old.self._problem, DTT)
+        return self._count(c) + [("returns-only-when-no-tolerance-criterion-is-met", z3.And(z3.Not(f_met), z3.Not(x_met)))]
+
+    def raise_ensures(self, c, exc):
+        return self._count(c)
